@@ -69,6 +69,28 @@ def plan(tier):
     for key in FREE_KEYS:
         for label, v in VALUES:
             cases.append({"spec": sc, "lines": set_value(base, key, v), "label": f"{key}={label}"})
+    # documented conversions over their value ranges (dates incl. leap day, a leap second and the ends of a day; numbers in
+    # several spellings; every code of the lookup tables; empty checks)
+    TYPED = {
+        "Img_SceneCenterDateTime": ["20160229 00:00:00.000", "20161231 23:59:60.150", "20491231 23:59:59.999", "20140101 12:00:00.5"],
+        "Img_SceneStartDateTime": ["20200229 23:59:59.999", "20150630 23:59:60.000"],
+        "Lbi_ObservationDate": ["20160229", "20491231", "20140101"],
+        "Scs_SceneShift": ["0", "-5", "5"],
+        "Pds_UTM_ZoneNo": ["1", "60"],
+        "Pds_PixelSpacing": ["0.0", "2.5", "100", "1.0E+02"],
+        "Img_ImageSceneCenterLatitude": ["-89.9999999", "0", "90.0"],
+        "Img_ImageSceneCenterLongitude": ["180.0", "-0.0", "1.5e1"],
+        "Pdi_BitPixel": ["16", "64"],
+        "Pdi_ProductDataSize": ["0.1", "12345.6"],
+        "Pds_ResamplingMethod": ["NN", "BL", "CC"],
+        "Lbi_ProcessFacility": ["SCMO", "EICS"],
+        "Ach_TimeCheck": ["", "POOR"],
+        "Ach_AttitudeCheck": ["GOOD"],
+    }
+    for key, vals in TYPED.items():
+        for v in vals:
+            cases.append({"spec": sc, "lines": set_value(base, key, v), "label": f"{key}={v!r}"})
+    cases.append({"spec": sc, "lines": [l for k, vals in TYPED.items() for l in []] or [next((f'{k}="{TYPED[k][-1]}"' for k in TYPED if l.startswith(k + "=")), l) for l in base], "label": "every typed key at its last alphabet value"})
     for eol, fin in (("\r\n", True), ("\n", False), ("\r\n", False)):
         cases.append({"spec": sc, "lines": base, "eol": eol, "final_newline": fin, "label": f"eol={eol!r} final_newline={fin}"})
     # order: rotations, adjacent transpositions of the whole text
